@@ -5,7 +5,7 @@ from weight import WeightModel, accounting_flow
 from storemodel import StoreModel, local_uses
 
 WITNESSES = ['W5InternalsUnreachable']
-from sym import ipaths
+from sym import ipaths, focus
 
 LEVEL = "other"
 EXPLANATION = ("Pairing rules on MIR paths: an admission function charges weight exactly once on every Accepted path "
@@ -63,15 +63,22 @@ def run(ctx):
 
     # R05.1b: handlers insert once iff admission accepted, under the same id/key
     admit_names = {f.name for f in admit_fns}
-    handlers = []
-    for name, f in F.fns.items():
-        cs = f.calls()
-        if any(t.get("rpath") in admit_names for b, t in cs) and any(t.get("rpath") in S.insert_fns for b, t in cs):
-            handlers.append(f)
+    # handlers = the outermost status-returning functions on whose paths (private helpers such as a shared `admit` step
+    # inlined) an admission and a store insert both happen
+    hstop = focus(F, admit_names | set(S.insert_fns) | set(S.presence_fns) | set(S.filtered_presence_fns))
+    hc = {}
+    for name in sorted(status_fns - admit_names):
+        f = F.fns[name]
+        if f.kind == "Closure":
+            continue
+        ps = ipaths(F, f, stop=hstop, depth=3)
+        if any(p.calls(S.insert_fns) for p in ps) and any(p.calls(admit_names) for p in ps):
+            hc[name] = ps
+    handlers = [F.fns[n] for n in hc if not any(t.get("rpath") == n for m in hc if m != n for b, t in F.fns[m].calls())]
     ctx.floor("R05.1", "put handlers (admit then insert)", len(handlers), 1)
     for f in handlers:
         ctx.touch(f)
-        paths = ipaths(F, f, stop=lambda n: n in admit_names or n in S.insert_fns or n in S.presence_fns or n in S.filtered_presence_fns, depth=2)
+        paths = hc[f.name]
         ctx.analysed["paths"] += len(paths)
         bad = []
         for p in paths:
@@ -113,7 +120,9 @@ def run(ctx):
         if used:
             ctx.ok("R05.3", "%s|overwriting-insert-handled" % f.name, "the previous entry returned by the store insert is inspected", f.where(bb))
             continue
-        ok, why = S.absence_guarded(f, bb, key)
+        ok, why = S.absence_guarded_sym(f, lambda e, f=f, bb=bb: e.fn is f and e.bb == bb, lambda e: e.args[1])
+        if not ok:
+            ok, why = S.absence_guarded(f, bb, key)
         ctx.check(ok, "R05.3", "%s|overwriting-insert-handled" % f.name,
                   "DashMap::insert overwrites: it must be dominated by a same-thread absence check of that key, or the returned previous entry must be consumed (else the old incarnation's weight stays charged forever)",
                   f.where(bb), why)
